@@ -78,11 +78,10 @@ type noOpCompressor struct {
 }
 
 func (c *noOpCompressor) Reset(writer io.Writer) {
-	wc, ok := writer.(io.WriteCloser)
-	if !ok {
-		wc = &noOpCloser{writer}
-	}
-	c.WriteCloser = wc
+	// Closing a compressor must not close the underlying writer
+	// (just like closing a gzip.Writer does not), even if it happens
+	// to be an io.Closer.
+	c.WriteCloser = &noOpCloser{writer}
 }
 
 type noOpDecompressor struct {
